@@ -16,6 +16,7 @@ def parseDev (s : String) : Option Dev :=
 `W:<dev>:<name>:<v>` accepted set -/
 def parseEvent (s : String) : Option Event :=
   match s.splitOn ":" with
+  | ["U"] => some .uid
   | ["E", h] => (parseHex h).map Event.ecomaxParams
   | ["M", h] => (parseHex h).map Event.mixerParams
   | ["T", h] => (parseHex h).map Event.thermostatParams
